@@ -853,12 +853,15 @@ def ambiguous_prop_version(cfg: str, ver_name: str) -> bool:
 EMPTIED = ['props', 'detail_props', 'overlays', 'cubemaps']
 
 
-def from_empty(base: str, workdir: str, cfg: str, hdr: int, seed: int, feats: set[str], size: int) -> tuple[dict[str, str], Gen | None, str]:
+def from_empty(base: str, workdir: str, cfg: str, hdr: int, seed: int, feats: set[str], size: int,
+               read_first: bool = True) -> tuple[dict[str, str], Gen | None, str]:
     """History: a file whose static-prop / detail-prop / overlay / cubemap tables are EMPTY (static-prop header number `hdr`) is read -
     every view, so that whatever a reader records about the file is recorded -, then a generated world is assigned to the SAME BSP
     object, saved and re-read by a fresh object. Nobody names the static-prop format: the object that read the empty table chooses
     it (public attribute `static_prop_version`), the world is generated for that choice, and the fresh reader has to arrive at the
-    same format from the file alone.  Returns (view -> difference, the generated world's Gen, name of the chosen format)."""
+    same format from the file alone.  Returns (view -> difference, the generated world's Gen, name of the chosen format).
+    With read_first=False the object that opens the file reads NOTHING before the world is assigned: no format is recorded, the
+    writer falls back to its default (the world is generated for it; what was used is read off the object after the save)."""
     import srctools.bsp as B
     path = os.path.join(workdir, 'hist.bsp')
     shutil.copy(base, path)
@@ -884,12 +887,12 @@ def from_empty(base: str, workdir: str, cfg: str, hdr: int, seed: int, feats: se
             b0.game_lumps[b'sprp'].version = hdr
             b0.save(path)
             b1 = B.BSP(path, exp_ver)
-            for v in VIEWS:
+            for v in VIEWS if read_first else []:
                 val = getattr(b1, v)
                 if v in EMPTIED and len(val):
                     res[v] = f'{v}: the table written empty is read back with {len(val)} entries'
                     return res, None, '?'
-            chosen = b1.static_prop_version
+            chosen = b1.static_prop_version if read_first else B.StaticPropVersion.DEFAULT
     except (Exception, ImplTimeout) as e:      # noqa: BLE001
         res['!save'] = f'file with empty tables: {type(e).__name__}: {e}'[:300]
         return res, None, '?'
@@ -910,6 +913,9 @@ def from_empty(base: str, workdir: str, cfg: str, hdr: int, seed: int, feats: se
     except (Exception, ImplTimeout) as e:      # noqa: BLE001
         res['!save'] = f'{type(e).__name__}: {e}'[:300]
         return res, g, chosen.name
+    if not read_first and b1.static_prop_version is not chosen:
+        res['props'] = f'nothing was read and no format named: the writer used {b1.static_prop_version.name}, not the documented default {chosen.name}'
+        return res, g, b1.static_prop_version.name
     try:
         with time_limit(IMPL_TIME_LIMIT):
             b2 = B.BSP(path, exp_ver)
